@@ -629,6 +629,8 @@ func main() {
 
 	accesses := collectAccesses(files, names)
 	deepWrites := collectDeepWrites(files)
+	backoff := collectBackoff(files)
+	layout := collectPrimLayout(files)
 
 	// ---------------- emit Generated.v ----------------
 	var b strings.Builder
@@ -755,6 +757,17 @@ func main() {
 		w("  {| ac_func := %s; ac_recv := %s; ac_field := %s; ac_write := %v; ac_locked := %v; ac_in_go := %v; ac_in_loop := %v; ac_kind := %s |}", coqStr(a.Func), coqStr(a.Recv), coqStr(a.Field), a.Write, a.Locked, a.InGo, a.InLoop, coqStr(a.Kind))
 	}
 	w("\n].\n\n")
+	w("(* fixed-length primitives as the code reads / writes them: function, item type constant, length (decode_core.go: expectType + expectLength; encode_core.go: writeTagTypeLength) *)\n")
+	w("Definition gen_prim_layout : list (string * string * N) := [")
+	for i, l := range layout {
+		if i > 0 {
+			w("; ")
+		}
+		w("(%s, %s, %s)", coqStr(l[0]), coqStr(l[1]), l[2])
+	}
+	w("].\n\n")
+	w("(* the constants of Serve's back-off on temporary Accept errors, in milliseconds: first delay, factor, cap (None: not recognised) *)\n")
+	w("Definition gen_backoff : option (N * N * N) := %s.\n\n", backoff)
 	w("(* assignments in methods of Server / Client that go THROUGH a pointer held in one of the receiver's fields (or a local copy of\n   that pointer): function, receiver type, field, assigned path - memory the caller supplied (TLSConfig, Log) *)\n")
 	w("Definition gen_deep_writes : list (string * string * string * string) := [")
 	for i, d := range deepWrites {
@@ -914,6 +927,136 @@ func collectLocals(fd *ast.FuncDecl, locals map[string]bool) {
 		}
 		return true
 	})
+}
+
+// collectPrimLayout: for every method read* of Decoder the item type and length it insists on (first d.expectType(X) and
+// d.expectLength(<int>)), for every method write* of Encoder the header it writes (e.writeTagTypeLength(t, X, <int>)).
+func collectPrimLayout(files []*ast.File) [][3]string {
+	var out [][3]string
+	for _, f := range files {
+		for _, d := range f.Decls {
+			fd, ok := d.(*ast.FuncDecl)
+			if !ok || fd.Body == nil || fd.Recv == nil || len(fd.Recv.List) != 1 {
+				continue
+			}
+			recvT := strings.TrimPrefix(exprString(fd.Recv.List[0].Type), "*")
+			isRead := recvT == "Decoder" && strings.HasPrefix(fd.Name.Name, "read")
+			isWrite := recvT == "Encoder" && strings.HasPrefix(fd.Name.Name, "write")
+			if !isRead && !isWrite {
+				continue
+			}
+			typ, length := "", ""
+			ast.Inspect(fd.Body, func(n ast.Node) bool {
+				call, ok := n.(*ast.CallExpr)
+				if !ok {
+					return true
+				}
+				se, ok := call.Fun.(*ast.SelectorExpr)
+				if !ok {
+					return true
+				}
+				switch {
+				case isRead && se.Sel.Name == "expectType" && len(call.Args) == 1 && typ == "":
+					if id, ok := call.Args[0].(*ast.Ident); ok {
+						typ = id.Name
+					}
+				case isRead && se.Sel.Name == "expectLength" && len(call.Args) == 1 && length == "":
+					if lit, ok := call.Args[0].(*ast.BasicLit); ok && lit.Kind == token.INT {
+						length = lit.Value
+					}
+				case isWrite && se.Sel.Name == "writeTagTypeLength" && len(call.Args) == 3 && typ == "":
+					id, ok1 := call.Args[1].(*ast.Ident)
+					lit, ok2 := call.Args[2].(*ast.BasicLit)
+					if ok1 && ok2 && lit.Kind == token.INT {
+						typ, length = id.Name, lit.Value
+					}
+				}
+				return true
+			})
+			if typ != "" && length != "" {
+				out = append(out, [3]string{fd.Name.Name, typ, length})
+			}
+		}
+	}
+	sort.Slice(out, func(i, j int) bool { return out[i][0] < out[j][0] })
+	return out
+}
+
+// collectBackoff reads the three constants of the accept loop's back-off out of Server.Serve:
+//   tempDelay = <a> * time.<Unit>        (the only plain assignment of a product to tempDelay)
+//   tempDelay *= <f>
+//   if max := <c> * time.<Unit>; tempDelay > max { ... }
+// and prints them as a Coq option value in milliseconds.
+func collectBackoff(files []*ast.File) string {
+	ms := func(e ast.Expr) (int64, bool) {
+		be, ok := e.(*ast.BinaryExpr)
+		if !ok || be.Op != token.MUL {
+			return 0, false
+		}
+		lit, ok := be.X.(*ast.BasicLit)
+		sel, ok2 := be.Y.(*ast.SelectorExpr)
+		if !ok || !ok2 || lit.Kind != token.INT || exprString(sel.X) != "time" {
+			return 0, false
+		}
+		n, err := strconv.ParseInt(lit.Value, 0, 64)
+		if err != nil {
+			return 0, false
+		}
+		switch sel.Sel.Name {
+		case "Millisecond":
+			return n, true
+		case "Second":
+			return n * 1000, true
+		case "Minute":
+			return n * 60000, true
+		}
+		return 0, false
+	}
+	var first, factor, cap []int64
+	for _, f := range files {
+		for _, d := range f.Decls {
+			fd, ok := d.(*ast.FuncDecl)
+			if !ok || fd.Body == nil || fd.Name.Name != "Serve" || fd.Recv == nil {
+				continue
+			}
+			ast.Inspect(fd.Body, func(n ast.Node) bool {
+				switch x := n.(type) {
+				case *ast.AssignStmt:
+					if len(x.Lhs) == 1 && len(x.Rhs) == 1 && exprString(x.Lhs[0]) == "tempDelay" {
+						switch x.Tok {
+						case token.ASSIGN:
+							if v, ok := ms(x.Rhs[0]); ok {
+								first = append(first, v)
+							}
+						case token.MUL_ASSIGN:
+							if lit, ok := x.Rhs[0].(*ast.BasicLit); ok && lit.Kind == token.INT {
+								if v, err := strconv.ParseInt(lit.Value, 0, 64); err == nil {
+									factor = append(factor, v)
+								}
+							} else {
+								factor = append(factor, -1)
+							}
+						default:
+							factor = append(factor, -1) // some other compound assignment: not understood
+						}
+					}
+				case *ast.IfStmt:
+					if as, ok := x.Init.(*ast.AssignStmt); ok && len(as.Lhs) == 1 && len(as.Rhs) == 1 {
+						if be, ok := x.Cond.(*ast.BinaryExpr); ok && be.Op == token.GTR && exprString(be.X) == "tempDelay" && exprString(be.Y) == exprString(as.Lhs[0]) {
+							if v, ok := ms(as.Rhs[0]); ok {
+								cap = append(cap, v)
+							}
+						}
+					}
+				}
+				return true
+			})
+		}
+	}
+	if len(first) != 1 || len(factor) != 1 || len(cap) != 1 || factor[0] < 0 {
+		return "None"
+	}
+	return fmt.Sprintf("Some (%d, %d, %d)", first[0], factor[0], cap[0])
 }
 
 // collectDeepWrites: for every method of Server and Client, the assignments (=, op=, ++/--) whose target is reached through a
